@@ -1,5 +1,6 @@
 import FqModel.C02Call
 import FqModel.Gen.DecodeGen
+import FqModel.Gen.BitFns
 /-!
   C02 — the regenerated fact about pkg/decode/decode_gen.go (table written by /verif/extract/c02gen
   on every run into FqModel/Gen/DecodeGen.lean).
@@ -31,5 +32,16 @@ theorem parseName_examples :
         = some (.tryFieldScalar, .tryTextNull, [.lit 2, .enc .utf16le])                            -- TryFieldScalarUTF16LENull
     ∧ parseName [85,105,110,116,65,115,115,101,114,116] = none := by                               -- UintAssert
   decide +kernel
+
+/-- REGENERATED FACT.  The model's `reverseBytes64` IS bitio.ReverseBytes64 as it stands in the
+    repository (go/ast translation of every case's mask/shift/or expression to `BitVec 64`), by
+    definitional unfolding -/
+theorem gen_reverseBytes64_ok (nBits : Nat) (n : BitVec 64) :
+    FqModel.Gen.BitFns.reverseBytes64 nBits n = FqModel.Scalar.reverseBytes64 nBits n := rfl
+
+/-- REGENERATED FACT.  The model's `twosComplement` IS the sign test and the two's complement
+    expression of read.go trySEndian -/
+theorem gen_twosComplement_ok (nBits : Nat) (n : BitVec 64) :
+    FqModel.Gen.BitFns.twosComplement nBits n = FqModel.Scalar.twosComplement nBits n := rfl
 
 end Props.C02
